@@ -406,7 +406,8 @@ var gocvGhostDummy gocvMsgGhost
 func gocv_ghostOf(m any) *gocvMsgGhost { return &gocvGhostDummy }
 // gocvExtGhost: what the protobuf runtime holds for one proto2 extension of one message.
 type gocvExtGhost struct {
-	val any
+	has bool  // the extension is set (what HasExtension reports)
+	val any   // what GetExtension returns: for an UNSET extension that is runtime-specific (google v2: the default value, e.g. a typed nil message pointer; v1/gogo: nil and an error)
 	err error
 }
 
